@@ -548,6 +548,7 @@ def run(repo, rep):
     standalone_rules(repo, rep, beta)
     ctx = formula_rules(repo, rep)
     guard_rules(repo, rep)
+    common.tm_division_rules(repo, rep)
     if ctx is not None:
         cm_sibling_rule(repo, rep, ctx)
     tr = ThreadRule(repo, _Filter(rep, lambda key: 'psfandgridconv' not in key))
